@@ -32,6 +32,17 @@ def replay_trapz(col, case):
                                                                       observed=np.asarray(got).tolist()))
                 return
     chk("rank1", case["y1"], 0, case["r1"])
+    # Homogeneous: the coordinate scaled by 2^-30 (exact in binary; steps of a nanometre or so) scales the integral alike
+    try:
+        s = 2.0 ** -30
+        got = integrate_column(np.array(case["y1"], dtype=float), x * s + 0.5, axis=0)
+        col.count(1)
+        want = np.array(case["r1"], dtype=float) / 2.0 * s
+        if np.shape(got) != want.shape or not np.all(np.abs(np.asarray(got, dtype=float) - want) <= 1e-12 * np.abs(want)):
+            col.violation("integrate_column-wrong-on-a-tiny-grid", dict(rep, scale="2^-30", expected=want.tolist(),
+                                                                        observed=np.asarray(got).tolist()))
+    except Exception as ex:
+        col.violation("integrate_column-raises-" + type(ex).__name__, dict(rep, op="tiny-grid", observed=repr(ex)[:200]))
     chk("rank1-default-spacing", case["y1"], 0, case["r1u"], with_x=False)
     chk("rank2-axis0", case["a2"], 0, case["ra2"])
     chk("rank2-axis1", case["b2"], 1, case["rb2"])
@@ -192,10 +203,13 @@ def replay_isa(col, cases):
             col.violation("standard-atmosphere-addressings-disagree-at-levels", dict(rep, expected=tl.tolist(), observed=gp.tolist()))
     except Exception as ex:
         col.violation("standard-atmosphere-raises-" + type(ex).__name__, dict(rep, observed=repr(ex)[:200]))
-    for lo, hi in ((0, 8), (0, 3), (1, 5), (4, 8), (6, 8)):
+    for sel in ((0, 8), (0, 3), (1, 5), (4, 8), (6, 8), [0, 1, 7], [0, 4, 7], [0, 2, 7], [1, 2, 6], [1, 5, 6]):
+        # (the index lists are different columns with the SAME number of levels and the same end points, one after the other)
+        idx = list(range(*sel)) if isinstance(sel, tuple) else sel
+        lo, hi = idx[0], idx[-1] + 1
         try:
-            a = A.pressure2height(pl[lo:hi].copy())
-            b = A.pressure2height(pl[lo:hi].copy(), tl[lo:hi].copy())
+            a = A.pressure2height(pl[idx].copy())
+            b = A.pressure2height(pl[idx].copy(), tl[idx].copy())
             col.count(1)
             if not allclose(a, b, rel=1e-12):
                 col.violation("pressure2height-default-is-not-the-standard-atmosphere",
